@@ -244,7 +244,6 @@ package gorm
 //@   ensures not-a-transaction: drvCommits == old(drvCommits) ==> db.Error != nil
 //@   ensures error-kept: old(db.Error) != nil ==> db.Error != nil
 //@   ensures same-handle: result == db
-//@   ensures still-chain-in-progress: result.clone <= 0 && result.Statement != nil && result.Statement.DB == result && result.Statement == old(db.Statement)
 
 //@ func (*DB).Rollback
 //@   tags C04 C05
@@ -253,7 +252,6 @@ package gorm
 //@   ensures error-recorded: drvRollbacks == old(drvRollbacks) + 1 && drvRollbackErr != 0 ==> db.Error != nil
 //@   ensures error-kept: old(db.Error) != nil ==> db.Error != nil
 //@   ensures same-handle: result == db
-//@   ensures still-chain-in-progress: result.clone <= 0 && result.Statement != nil && result.Statement.DB == result && result.Statement == old(db.Statement)
 
 //@ # ---------- C14: lock discipline of the prepared-statement cache (premises of the monitor argument) ----------
 //@ ghost held inserted closes prepares spawned prepErr evicted ranged waited usable protectedMap
